@@ -5,6 +5,7 @@ from .solcommon import *
 def run(tier, seed, replay=None):
     rep = Report("C13", tier, seed)
     sun_selfcheck(rep)
+    calendar_and_ra_models(rep)
     args = ["--sites", 2, "--windows", 60, "--triples", 2000] if tier == "thorough" else ["--windows", 40, "--triples", 3000]
     info, events = validate(rep, "C13", "c13", args, heap="12g" if tier == "thorough" else "6g", stateful=True, timeout=6000)
     rep.traces = info.get("histories", 0) - rep.violations
